@@ -55,7 +55,7 @@ func c15(r *rep.Run) {
 		fullMax, shapeMax, aliasMax = 6, 9, 5
 		r.SetBudget(1800e9)
 	}
-	r.Rule = "every expression tree up to the node bound over (FULL) one binary operator per precedence class incl. the non-commutative ones (* / + - = < && ||), unary !, calls f(x) g(x,y) h(), if(c,a,b), atoms {a,b,1,-1,\"s\",true,[1 2]}; (SHAPE) the same operators over a single atom up to a larger bound (every nesting/associativity shape); (ALIAS) all 16 binary operator spellings; each rendered to infix four ways: minimal parentheses derived from the stated precedence and left associativity, fully parenthesised, redundant parentheses around atoms and calls with wide spacing, and minimal with no blanks next to parens/commas and `!ident` glued. Oracle: Compile(infix rendering) succeeds and its Dump and DumpTable equal those of the prefix form; both evaluate to the same outcome on 4 bindings. Operands of unary ! that are themselves ! or lower-precedence operators are parenthesised (the statement defines binary associativity only). non-trivial = renderings in which minimal parenthesisation differs from full parenthesisation"
+	r.Rule = "every expression tree up to the node bound over (FULL) one binary operator per precedence class incl. the non-commutative ones (* / + - = < && ||), unary !, calls f(x) g(x,y) h(), if(c,a,b), atoms {a,b,1,-1,\"s\",true,[1 2]}; (SHAPE) the same operators over a single atom up to a larger bound (every nesting/associativity shape); (ALIAS) all 16 binary operator spellings; each rendered to infix four ways: minimal parentheses derived from the stated precedence and left associativity, fully parenthesised, redundant parentheses around atoms and calls with wide spacing, and minimal with no blanks next to parens/commas and `!ident` glued. String literals whose content looks like infix syntax (!, !=, !a, brackets, ...) in every operand position; trees calling registered operators also in undefined-variable mode (variables unregistered / registered). Oracle: Compile(infix rendering) succeeds and its Dump and DumpTable equal those of the prefix form; both evaluate to the same outcome on 4 bindings. Operands of unary ! that are themselves ! or lower-precedence operators are parenthesised (the statement defines binary associativity only). non-trivial = renderings in which minimal parenthesisation differs from full parenthesisation"
 	r.Assume = []string{"the minimal-parentheses renderer (mc/props/infix.go) implements the precedence table of the statement: * / % > + - > ! > comparisons > && > ||, binary operators left associative"}
 	r.Cov["bounds"] = map[string]int{"full_nodes": fullMax, "shape_nodes": shapeMax, "alias_nodes": aliasMax}
 	var progs []*term.Term
@@ -113,6 +113,19 @@ func c15(r *rep.Run) {
 			progs = append(progs, t.Clone())
 		}
 	}
+	// string literals whose CONTENT looks like infix syntax (operators, a glued
+	// !ident naming a variable, brackets), in every operand position
+	for _, str := range []string{"!", "!=", "!a", "!b", "! a", "!(", "!!", "-", "&&", "||", "a", "f", "(", ")", "1", "a,b", "f(a)", "[", "=="} {
+		a := term.Var("a", X)
+		lit := term.Const(str)
+		for _, t := range []*term.Term{
+			term.Op("=", X, a, lit), term.Op("=", X, lit, a), term.Op("g", X, lit, a), term.Op("f", X, lit), term.Op("overlap", X, a, term.Const([]string{str, "x"})),
+			term.If(term.Op("=", X, a, lit), lit, term.Var("b", X)), term.Op("&&", X, term.Op("=", X, a, lit), term.Op("!", X, term.Op("=", X, term.Var("b", X), lit))),
+			term.Op("+", X, term.Op("f", X, lit), term.Const(int64(1))),
+		} {
+			progs = append(progs, t.Clone())
+		}
+	}
 	r.Cov["trees_full"], r.Cov["trees_shape"], r.Cov["trees_alias"] = nFull, nShape, len(progs)-nFull-nShape
 
 	hs := harnesses(r.Workers)
@@ -132,49 +145,65 @@ func c15(r *rep.Run) {
 		h := hs[w]
 		psrc := t.Src()
 		r.Note(w, psrc)
-		po := drive.Opt{}
-		pe, err := h.Compile(h.NewConfig(vars, po), psrc, 0)
-		if err != nil {
-			return // prefix form itself does not compile (cannot happen for this grammar)
+		// undefined-variable mode (variables unregistered / registered): only
+		// the trees that call a registered operator, up to 5 nodes
+		undefs := []int{0}
+		if t.Size() <= 5 {
+			calls := false
+			t.Walk(func(n *term.Term) {
+				if n.K == term.KOp && (n.Name == "f" || n.Name == "g" || n.Name == "h") {
+					calls = true
+				}
+			})
+			if calls {
+				undefs = []int{0, 1, 3}
+			}
 		}
-		want := eval.Dump(pe) + "\n" + eval.DumpTable(pe, false)
-		full := Infix(t, 1)
-		seen := map[string]bool{}
-		for style := 0; style < 4; style++ {
-			isrc := Infix(t, style)
-			if seen[isrc] {
-				continue
-			}
-			seen[isrc] = true
-			atomic.AddInt64(&renderings, 1)
-			if style == 0 && isrc != full {
-				atomic.AddInt64(&nontrivial, 1)
-			}
-			io := drive.Opt{Infix: true}
-			ie, err := h.Compile(h.NewConfig(vars, io), isrc, 0)
-			d := map[string]interface{}{"prefix": psrc, "infix": isrc, "style": []string{"minimal parentheses", "fully parenthesised", "redundant parentheses, wide", "minimal, glued"}[style]}
+		for _, undef := range undefs {
+			po := drive.Opt{Undef: undef}
+			pe, err := h.Compile(h.NewConfig(vars, po), psrc, 0)
 			if err != nil {
-				r.Violate("infix-does-not-compile", isrc, sprintf("the infix rendering %q of %s does not compile: %v", isrc, psrc, err), d)
-				continue
+				continue // prefix form itself does not compile (cannot happen for this grammar)
 			}
-			got := eval.Dump(ie) + "\n" + eval.DumpTable(ie, false)
-			if got != want {
-				d["infix_tree"], d["prefix_tree"] = eval.Dump(ie), eval.Dump(pe)
-				r.Violate("infix-tree-differs", isrc, sprintf("infix %q compiles to a different tree than its prefix form %s", isrc, psrc), d)
-				continue
-			}
-			for _, b := range bindings {
-				h.Reset()
-				x := h.Eval(pe, b)
-				y := h.Eval(ie, b)
-				atomic.AddInt64(&evals, 2)
-				if !drive.SameOutcome(x, y) {
-					r.Violate("infix-evaluates-differently", isrc, sprintf("infix %q evaluates to %s, prefix %s to %s", isrc, y, psrc, x), d)
+			want := eval.Dump(pe) + "\n" + eval.DumpTable(pe, false)
+			full := Infix(t, 1)
+			seen := map[string]bool{}
+			for style := 0; style < 4; style++ {
+				isrc := Infix(t, style)
+				if seen[isrc] {
+					continue
+				}
+				seen[isrc] = true
+				atomic.AddInt64(&renderings, 1)
+				if style == 0 && isrc != full {
+					atomic.AddInt64(&nontrivial, 1)
+				}
+				io := drive.Opt{Infix: true, Undef: undef}
+				ie, err := h.Compile(h.NewConfig(vars, io), isrc, 0)
+				d := map[string]interface{}{"prefix": psrc, "infix": isrc, "undefined_variable_mode": undef, "style": []string{"minimal parentheses", "fully parenthesised", "redundant parentheses, wide", "minimal, glued"}[style]}
+				if err != nil {
+					r.Violate("infix-does-not-compile", isrc, sprintf("the infix rendering %q of %s does not compile: %v", isrc, psrc, err), d)
+					continue
+				}
+				got := eval.Dump(ie) + "\n" + eval.DumpTable(ie, false)
+				if got != want {
+					d["infix_tree"], d["prefix_tree"] = eval.Dump(ie), eval.Dump(pe)
+					r.Violate("infix-tree-differs", isrc, sprintf("infix %q compiles to a different tree than its prefix form %s", isrc, psrc), d)
+					continue
+				}
+				for _, b := range bindings {
+					h.Reset()
+					x := h.Eval(pe, b)
+					y := h.Eval(ie, b)
+					atomic.AddInt64(&evals, 2)
+					if !drive.SameOutcome(x, y) {
+						r.Violate("infix-evaluates-differently", isrc, sprintf("infix %q evaluates to %s, prefix %s to %s", isrc, y, psrc, x), d)
+					}
 				}
 			}
 		}
 		if i%9973 == 0 {
-			r.Sample(12, map[string]interface{}{"prefix": psrc, "infix_minimal": Infix(t, 0), "infix_full": full})
+			r.Sample(12, map[string]interface{}{"prefix": psrc, "infix_minimal": Infix(t, 0), "infix_full": Infix(t, 1)})
 		}
 	})
 	r.Cov["trees_completed"] = done
